@@ -124,6 +124,9 @@ def make_enum(xml_elem):
         for member in xml_elem:
             value = required(member, 'value')
             try:
+                """ a number written with ASCII digits (int() also reads -1_0, -0b11 and the digits of other scripts) """
+                if not re.match(r"[ \t]*[-+]?(0[xX][0-9a-fA-F]+|[0-9]+)[ \t]*\Z", value):
+                    raise ValueError(value)
                 int_value = int(value, 0)
                 if -0x80000000 <= int_value < 0:
                     value = "0x{:X}".format(0x100000000 + int_value)
